@@ -12,6 +12,7 @@ KNOWN_FINDINGS = os.path.join(VERIF, "known_findings.txt")
 FLOORS = os.path.join(VERIF, "rules", "floors.json")
 
 DISCHARGED, VIOLATED, UNMODELLED = "discharged", "violated", "unmodelled"
+INHERITS = "inherits"   # fails only because something it delegates to is violated (reported there)
 
 
 class Ob:
